@@ -31,6 +31,7 @@ pub const SUBS: &[SubDef] = &[
     SubDef { prop: "C02", name: "frame_shapes", oracle: frame_shapes },
     SubDef { prop: "C02", name: "frame_generated", oracle: frame_generated },
     SubDef { prop: "C02", name: "frame_raw", oracle: frame_raw },
+    SubDef { prop: "C02", name: "frame_foreign", oracle: frame_foreign },
 ];
 
 fn run(ctx: &Ctx) {
@@ -75,6 +76,10 @@ fn run(ctx: &Ctx) {
     ctx.run_enum("frame_shapes", frame_shapes, false, "6 content types x payload lengths 0..5 x 6 payload starts, each alone and twice in a row; 19 handshake types x 6 record lengths x 5 declared message lengths; every cut near the boundaries", cases.into_iter());
     ctx.run_tape("frame_generated", frame_generated, ctx.pick(6_000, 400_000), 512);
     ctx.run_tape("frame_raw", frame_raw, ctx.pick(10_000, 400_000), 64);
+    // what a TLS port also receives: the first bytes of other protocols (to a record parser: a header like any other)
+    let per = ctx.pick(4, 64) as u8;
+    let cases = (0..FOREIGN_OPENERS.len() as u8).flat_map(|o| (0..per).map(move |k| vec![o, k, o ^ k.wrapping_mul(37)]));
+    ctx.run_enum("frame_foreign", frame_foreign, false, &format!("{} openers of other protocols (HTTP methods and responses, HTTP/2 preface, SSH, SMTP, IMAP, POP3, SOCKS, SSLv2, DTLS, RDP, SMB, ...) x {} continuations, cut at every prefix up to 64 bytes and around the record end their first five bytes announce", FOREIGN_OPENERS.len(), per), cases);
 }
 
 thread_local! {
@@ -268,6 +273,47 @@ fn frame_shapes(t: &mut Tape, obs: &mut Obs) -> R {
     if obs.wants_sample() {
         obs.sample(json!({"shape": if kind == 0 { "twin records" } else { "handshake header at the start of the payload" }, "hex": hex_short(&inputs[inputs.len() - 1])}));
     }
+    Ok(())
+}
+
+/// input = the opening bytes of another protocol, continued with filler up to (and beyond) the record length its first five bytes
+/// announce. parameter tape: [opener index, continuation variant, filler seed]
+fn frame_foreign(t: &mut Tape, obs: &mut Obs) -> R {
+    let o = t.u8() as usize % FOREIGN_OPENERS.len();
+    let k = t.u8() as usize;
+    let seed = t.u8();
+    let mut input = FOREIGN_OPENERS[o].to_vec();
+    // variants: the opener as it is / cut to 5..8 bytes / case changed, then filler
+    match k % 4 {
+        1 => input.truncate(5 + k / 4 % 4),
+        2 => input.iter_mut().for_each(|b| *b = b.to_ascii_lowercase()),
+        _ => {}
+    }
+    while input.len() < 5 {
+        input.push(b' ');
+    }
+    let l = ((input[3] as usize) << 8) | input[4] as usize;
+    let want = if l > CAP { 64 } else { 5 + l + [0usize, 1, 7][k % 3] };
+    let mut x = seed as u32 | 0x100;
+    while input.len() < want {
+        x = x.wrapping_mul(1_103_515_245).wrapping_add(12345);
+        input.push(if k % 2 == 0 { (x >> 16) as u8 } else { b"abcdefghijklmnopqrstuvwxyz /:.\r\n"[(x >> 16) as usize % 32] });
+    }
+    let mut cuts: Vec<usize> = (0..=64.min(input.len())).collect();
+    if l <= CAP {
+        for c in [5 + l - l.min(1), 5 + l, 5 + l + 1, input.len()] {
+            if c <= input.len() && !cuts.contains(&c) {
+                cuts.push(c);
+            }
+        }
+    }
+    for p in PARSERS {
+        for &c in &cuts {
+            obs.evals_add(1);
+            check_cut(p, &input[..c], obs)?;
+        }
+    }
+    obs.sample_class(if l > CAP { "announces-more-than-the-cap" } else { "announces-a-length-within-the-cap" }, || json!({"opener": String::from_utf8_lossy(&FOREIGN_OPENERS[o][..FOREIGN_OPENERS[o].len().min(24)]).to_string(), "as_header": format!("type {:#04x} version {:#06x} length {}", input[0], (input[1] as u16) << 8 | input[2] as u16, l), "input_bytes": input.len()}));
     Ok(())
 }
 
